@@ -776,6 +776,9 @@ func runCase(k int, f *hx.Flags, o *hx.Out) {
 		}
 		kinds = append(kinds, "foreign-add", "foreign-only")
 		kind := kinds[c.r.Intn(len(kinds))]
+		if k < 3 && len(txs) > 0 {
+			kind = "dup-last" // corpus: the repro of the defect fixed by 6817c0b ([a,b,c,c] under the header of [a,b,c])
+		}
 		ids := make([]int, len(txs))
 		for i := range ids {
 			ids[i] = i
@@ -837,7 +840,7 @@ func runCase(k int, f *hx.Flags, o *hx.Out) {
 			panic(err)
 		}
 		// wrong data first: the genuine header with a transaction list that is not the block's
-		if c.r.Chance(1, 2) {
+		if c.r.Chance(1, 2) || k < 3 {
 			tb, kind, body := tamper(b)
 			res, err := safeErr(func() error { return c.mod.AddBlock(tb) })
 			var bhs string
@@ -846,6 +849,9 @@ func runCase(k int, f *hx.Flags, o *hx.Out) {
 			}
 			c.line(fmt.Sprintf("badblock %d %s", idx, body), res+bhs)
 			o.Count("block:tampered-" + kind)
+			if kind == "dup-last" && len(b.Transactions) >= 3 && len(b.Transactions)%2 == 1 {
+				o.Count("block:dup-last-with-equal-merkle-root")
+			}
 			if res == "panic" {
 				c.fail("panic", "AddBlock(tampered %s %d): %v", kind, idx, err)
 				return
